@@ -167,6 +167,47 @@ def param_graph(cx, kind="derived", where="f", nsamples=2, nburnout=1):
     return "ok"
 
 
+class FTuple(torch.nn.Module):
+    def __init__(self, a):
+        super().__init__()
+        self.a = torch.nn.Parameter(a)
+
+    def forward(self, x, b):
+        return (_f(x, self.a, b), (b * x).sum() * self.a)
+
+
+def tuple_module(cx, nsamples=2, nburnout=1):
+    """tuple-valued f given as a method of a module that holds a differentiable tensor (mhcustom, deterministic step)"""
+    s = cx.scalar("s")
+    delta = cx.scalar("delta")
+    x0 = cx.sym("x0", (1,))
+    a0 = cx.sym("a", (), requires_grad=True)
+    b = cx.sym("b", (), requires_grad=True)
+    c = cx.sym("c", (), requires_grad=True)
+    g = cx.sym("g", (2,))
+    mod = FTuple(a0)
+    a = mod.a
+
+    def step(x, *pparams):
+        return x * s + delta
+    res = mcquad(mod.forward, lambda x, c_: _logp(x, c_), x0, fparams=(b,), pparams=(c,), method="mhcustom",
+                 nsamples=nsamples, nburnout=nburnout, custom_step=step)
+    ref = mcquad(lambda x, a_, b_: (_f(x, a_, b_), (b_ * x).sum() * a_), lambda x, c_: _logp(x, c_), x0, fparams=(a, b),
+                 pparams=(c,), method="mhcustom", nsamples=nsamples, nburnout=nburnout, custom_step=step)
+    l1 = g[0] * res[0].sum() + g[1] * res[1].sum()
+    l2 = g[0] * ref[0].sum() + g[1] * ref[1].sum()
+    cx.claim_eq("value", l1, l2)
+    g1 = grads(l1, [a, b, c], create_graph=True)
+    g2 = grads(l2, [a, b, c], create_graph=True)
+    for nm, x, y in zip(["a (object-held)", "b", "c"], g1, g2):
+        cx.claim_eq("d/d" + nm, x, y)
+    c1 = sum((0.5 * (i + 1) * gi).sum() for i, gi in enumerate(zero_if_none(g1, [a, b, c])))
+    c2 = sum((0.5 * (i + 1) * gi).sum() for i, gi in enumerate(zero_if_none(g2, [a, b, c])))
+    for nm, x, y in zip(["a", "b", "c"], grads(c1, [a, b, c]), grads(c2, [a, b, c])):
+        cx.claim_eq("d2/d" + nm, x, y)
+    return "ok"
+
+
 def configs(tier):
     cfgs = []
 
@@ -182,6 +223,7 @@ def configs(tier):
     for where in ("f", "logp"):
         for kind in ("derived", "duplicate"):
             add("param_graph/%s/%s" % (where, kind), param_graph, kind=kind, where=where)
+    add("tuple_module/nn", tuple_module)
     add("mh/ns2_nb1", mh_two, nsamples=2, nburnout=1, opts={"max_paths": 300})
     if tier == "thorough":
         add("mhcustom/ns4_nb3/tuple", custom, nsamples=4, nburnout=3, out="tuple", opts={"budget_s": 900})
